@@ -37,7 +37,9 @@ unsigned g_shrink_calls, g_expand_calls;
 #define CM(c, k) (IS_IN(c) ? g_in[k] : g_cc[k])
 #define CM_OLD(c, k) (IS_IN(c) ? __CPROVER_old(g_in[k]) : __CPROVER_old(g_cc[k]))
 #define IND(b) ((b) ? 1 : 0)
-#define FREE_OK(h, e) ((e) == 0 || ((e) < (h)->a_size && ((e) > (h)->a_last || (g_lvl[e] == 0 && g_cc[e] == 0))))
+/* every handle on a free list is deleted and uncached (also the stale ones beyond a_last:
+ * a_last only grows when all lists have been emptied) */
+#define FREE_OK(h, e) ((e) == 0 || ((e) < (h)->a_size && g_lvl[e] == 0 && g_cc[e] == 0))
 
 /* ------------------------------------------------------------------ abstract array contracts */
 #define CNT_ABS_REQ(c, i) \
@@ -111,7 +113,7 @@ __CPROVER_assigns()
 __CPROVER_ensures(__CPROVER_return_value == g_adr[i])
 #ifdef HDR_FREELIST_SHAPE
 /* ASSUMED free-list shape (local footprint): the next pointer stored in a deleted handle is 0
- * or a handle inside the arrays that is either beyond a_last or deleted and uncached */
+ * or a handle inside the arrays that is deleted and uncached */
 __CPROVER_ensures(g_lvl[i] != 0 || FREE_OK(g_hdr, __CPROVER_return_value))
 #endif
 ;
@@ -168,6 +170,7 @@ HDR_FREELIST_TARGETS(g_hdr)
 __CPROVER_ensures(g_delete_calls == __CPROVER_old(g_delete_calls) + 1 && g_delete_arg == p)
 __CPROVER_ensures(LVL(p) == 0 && ADR(p) == 0)
 __CPROVER_ensures((size_t)p <= g_hdr->a_last && g_hdr->a_last < g_hdr->a_size && g_hdr->a_lowest_index <= 8)
+__CPROVER_ensures(FREE_OK(g_hdr, g_hdr->a_unused[0]) && FREE_OK(g_hdr, g_hdr->a_unused[1]) && FREE_OK(g_hdr, g_hdr->a_unused[2]) && FREE_OK(g_hdr, g_hdr->a_unused[3]))
 /* p itself is never pushed on a free list by its own deletion */
 __CPROVER_ensures(g_hdr->a_unused[0] != (size_t)p && g_hdr->a_unused[1] != (size_t)p && g_hdr->a_unused[2] != (size_t)p && g_hdr->a_unused[3] != (size_t)p)
 ;
@@ -178,6 +181,7 @@ __CPROVER_assigns(verif_exc, g_shrink_calls, self->a_size, self->a_next_shrink, 
 __CPROVER_ensures(g_shrink_calls == __CPROVER_old(g_shrink_calls) + 1)
 __CPROVER_ensures(verif_exc == 0 || verif_exc == ERR_INSUFFICIENT_MEMORY)
 __CPROVER_ensures(self->a_last < self->a_size && self->a_size <= __CPROVER_old(self->a_size))
+__CPROVER_ensures(FREE_OK(self, self->a_unused[0]) && FREE_OK(self, self->a_unused[1]) && FREE_OK(self, self->a_unused[2]) && FREE_OK(self, self->a_unused[3]))
 ;
 void node_headers__expandHandleList(struct node_headers *self)
 __CPROVER_requires(self == g_hdr && verif_exc == 0)
@@ -187,6 +191,7 @@ __CPROVER_ensures(verif_exc == 0 || verif_exc == ERR_INSUFFICIENT_MEMORY)
 __CPROVER_ensures(verif_exc != 0 || (self->a_last + 1 < self->a_size && self->a_size <= g_n && self->a_size >= __CPROVER_old(self->a_size)))
 ;
 
+#define HEADS_OK(h) (FREE_OK(h, (h)->a_unused[0]) && FREE_OK(h, (h)->a_unused[1]) && FREE_OK(h, (h)->a_unused[2]) && FREE_OK(h, (h)->a_unused[3]))
 /* ------------------------------------------------------------------ the recycling gate */
 /* every caller must establish the two named preconditions: this is the gating lemma of
  * C06 ("handles are reused only after that") and C07 ("a handle is not reused while a
@@ -197,13 +202,16 @@ HDR_REQUIRES_WF(self)
 __CPROVER_requires(1 <= p && (size_t)p <= self->a_last)
 REQUIRES(recycled_handle_not_in_any_cache, CC(p) == 0)          /* MEDDLY_DCASSERT(0==getNodeCacheCount(p)) */
 REQUIRES(recycled_handle_is_deleted, LVL(p) == 0)               /* MEDDLY_DCASSERT(isDeleted(p)) in setNextOf */
-__CPROVER_requires(self->a_lowest_index <= 8)
+__CPROVER_requires(HEADS_OK(self))                              /* free-list shape at the heads (preserved, see ensures) */
+__CPROVER_requires(self->a_lowest_index <= 8 && HEADS_OK(self))
 __CPROVER_assigns(verif_exc, g_shrink_calls, g_adr[(size_t)p], self->a_size, self->a_next_shrink)
 HDR_FREELIST_TARGETS(self)
+ENSURES(arrays_never_grow, self->a_size <= __CPROVER_old(self->a_size))
 ENSURES(oom_only, verif_exc == 0 || verif_exc == ERR_INSUFFICIENT_MEMORY)
 ENSURES(handle_is_free, verif_exc != 0 || RECYCLED(self, p))
 #define PUSHED(h, p, k) ((h)->a_unused[k] == (size_t)(p) && ADR(p) == __CPROVER_old((h)->a_unused[k]) && (h)->a_lowest_index <= (k))
 ENSURES(pushed_on_a_free_list, verif_exc != 0 || g_shrink_calls != __CPROVER_old(g_shrink_calls) || PUSHED(self, p, 0) || PUSHED(self, p, 1) || PUSHED(self, p, 2) || PUSHED(self, p, 3))
+ENSURES(free_list_shape_preserved, verif_exc != 0 || (HEADS_OK(self) && (g_shrink_calls != __CPROVER_old(g_shrink_calls) || FREE_OK(self, ADR(p)))))
 ENSURES(a_last_never_grows, self->a_last <= __CPROVER_old(self->a_last) && self->a_last < self->a_size)
 /* handles dropped from the end are all deleted and uncached */
 ENSURES(collapsed_handles_are_dead, verif_exc != 0 || !(self->a_last < ghost_g && ghost_g <= __CPROVER_old(self->a_last)) || (LVL(ghost_g) == 0 && CC(ghost_g) == 0))
@@ -216,7 +224,7 @@ HDR_REQUIRES_WF(self)
 __CPROVER_requires(1 <= p && (size_t)p <= self->a_last && ghost_g < self->a_size)
 __CPROVER_requires(LVL(p) != 0 && IN(p) == 0)             /* reached only when the count hit zero on an active node */
 __CPROVER_requires(NOT_A_HEAD(self, p))                     /* free-list shape: heads <= a_last are deleted handles, p is active */
-__CPROVER_requires(self->a_lowest_index <= 8)
+__CPROVER_requires(self->a_lowest_index <= 8 && HEADS_OK(self))
 __CPROVER_assigns(verif_exc, g_delete_calls, g_delete_arg, g_shrink_calls, g_lvl[(size_t)p], g_adr[(size_t)p], self->a_size, self->a_next_shrink)
 __CPROVER_assigns(ghost_g != (size_t)p: g_in[ghost_g], g_lvl[ghost_g], g_adr[ghost_g])
 HDR_FREELIST_TARGETS(self)
@@ -235,7 +243,7 @@ __CPROVER_requires(p < 1 || ((size_t)p <= self->a_last && ghost_g < self->a_size
 __CPROVER_requires(p < 1 || LVL(p) != 0)                   /* MEDDLY_DCASSERT(isActive(p)) */
 __CPROVER_requires(p < 1 || NOT_A_HEAD(self, p))
 REQUIRES(unlinked_node_has_a_reference, p < 1 || IN(p) >= 1)
-__CPROVER_requires(self->a_lowest_index <= 8)
+__CPROVER_requires(self->a_lowest_index <= 8 && HEADS_OK(self))
 __CPROVER_assigns(verif_exc, g_delete_calls, g_delete_arg, g_shrink_calls, self->a_size, self->a_next_shrink)
 __CPROVER_assigns(p >= 1: g_in[(size_t)p], g_lvl[(size_t)p], g_adr[(size_t)p])
 __CPROVER_assigns(p >= 1 && ghost_g != (size_t)p: g_in[ghost_g], g_lvl[ghost_g], g_adr[ghost_g])
@@ -274,7 +282,7 @@ void node_headers__lastUncache(struct node_headers *self, node_handle p)
 HDR_REQUIRES_WF(self)
 __CPROVER_requires(1 <= p && (size_t)p <= self->a_last && ghost_g < self->a_size)
 __CPROVER_requires(CC(p) == 0)
-__CPROVER_requires(self->a_lowest_index <= 8)
+__CPROVER_requires(self->a_lowest_index <= 8 && HEADS_OK(self))
 __CPROVER_assigns(verif_exc, g_delete_calls, g_delete_arg, g_shrink_calls, g_lvl[(size_t)p], g_adr[(size_t)p], self->a_size, self->a_next_shrink)
 __CPROVER_assigns(ghost_g != (size_t)p: g_in[ghost_g], g_lvl[ghost_g], g_adr[ghost_g])
 HDR_FREELIST_TARGETS(self)
@@ -288,7 +296,7 @@ void node_headers__uncacheNode(struct node_headers *self, node_handle p)
 HDR_REQUIRES_WF(self)
 __CPROVER_requires(p < 1 || ((size_t)p <= self->a_last && ghost_g < self->a_size))
 REQUIRES(uncached_node_has_an_entry, p < 1 || CC(p) >= 1)
-__CPROVER_requires(self->a_lowest_index <= 8)
+__CPROVER_requires(self->a_lowest_index <= 8 && HEADS_OK(self))
 __CPROVER_assigns(verif_exc, g_delete_calls, g_delete_arg, g_shrink_calls, self->a_size, self->a_next_shrink)
 __CPROVER_assigns(p >= 1: g_cc[(size_t)p], g_lvl[(size_t)p], g_adr[(size_t)p])
 __CPROVER_assigns(p >= 1 && ghost_g != (size_t)p: g_in[ghost_g], g_lvl[ghost_g], g_adr[ghost_g])
